@@ -67,8 +67,8 @@ int ops_gen_core(int argc, char **argv, FILE *out) {
         if(!st) { fprintf(out, "load-error %s", rf_errmsg); free(v); return 1; }
         errno = 0;
         asn_encode_to_new_buffer_result_t r = asn_encode_to_new_buffer(0, syn, cur_td, st);
-        if(r.buffer) { fputs("ok ", out); hx_print(out, r.buffer, r.result.encoded); free(r.buffer); }
-        else fprintf(out, "fail %s %s", errno_name(errno), r.result.failed_type ? r.result.failed_type->name : "-");
+        if(r.buffer && r.result.encoded >= 0) { fputs("ok ", out); hx_print(out, r.buffer, r.result.encoded); free(r.buffer); }
+        else { fprintf(out, "fail %s %s%s", errno_name(errno), r.result.failed_type ? r.result.failed_type->name : "-", r.buffer ? " buffer-not-null" : ""); free(r.buffer); }
         ASN_STRUCT_FREE(*cur_td, st); free(v);
         return 1;
     }
